@@ -330,6 +330,24 @@ func (w *World) Propose(n *Node, t *transaction.Transaction) (accountant.Vertex,
 				w.c.Violate("C09", "created-vertex-weight-not-max-plus-one", fmt.Sprintf("node %d created vertex %x with weight %d over parents of weight %d (left) and %d (right)", n.id, v.Hash[:4], v.Weight, l, r), w.replayInfo(n, "propose"))
 			}
 		}
+		// C09: a created vertex references only tips that were valid: a tip that moves no funds is valid only while
+		// both its declared parents are in the live DAG (a parent that was truncated away makes it a dead end)
+		live := map[[32]byte]*accountant.Vertex{}
+		for i := range n.lastSnap.Vertices {
+			live[n.lastSnap.Vertices[i].Hash] = &n.lastSnap.Vertices[i]
+		}
+		var zero [32]byte
+		for _, ph := range [][32]byte{v.LeftParentHash, v.RightParentHash} {
+			p := live[ph]
+			if p == nil || !zeroSpice(p.Transaction.Spice) {
+				continue
+			}
+			for _, q := range [][32]byte{p.LeftParentHash, p.RightParentHash} {
+				if q != zero && live[q] == nil {
+					w.c.Violate("C09", "created-on-tip-with-truncated-parent", fmt.Sprintf("node %d created vertex %x on tip %x, which moves no funds and declares parent %x that is no longer in the live DAG", n.id, v.Hash[:4], ph[:4], q[:4]), w.replayInfo(n, "propose"))
+				}
+			}
+		}
 	}
 	return v, err
 }
